@@ -8,10 +8,15 @@ Cases == JsonDeserialize(IOEnv.CASES)
 
 FirstBad(fs) == LET c == { k \in 1..Len(fs) : ~fs[k].prog.ok } IN
                 IF c = {} THEN 0 ELSE CHOOSE k \in c : \A j \in c : k <= j
+\* the size placeholder STRING<<>> belongs to the library source; in emitted text it is a leaked internal object
+LeakLine(lines) == LET c == { i \in 1..Len(lines) : \E k \in 1..Len(lines[i]) : lines[i][k].k = "op" /\ lines[i][k].v = "<<>>" } IN
+                   IF c = {} THEN 0 ELSE CHOOSE i \in c : \A j \in c : i <= j
 Verdict(cs) ==
   LET lines == cs.lines
       ps == ProcStarts(lines) IN
-  IF ps = <<>> THEN
+  IF cs.kind # "library" /\ LeakLine(lines) # 0 THEN
+     [ok |-> FALSE, clause |-> "leak:string-size-placeholder-in-output", ln |-> LeakLine(lines), proc |-> "", nstmt |-> 0]
+  ELSE IF ps = <<>> THEN
      LET p == BProg(lines) IN
      [ok |-> p.ok, clause |-> p.err, ln |-> p.errln, proc |-> "", nstmt |-> Len(p.code)]
   ELSE IF \E k \in 1..(ps[1] - 1) : lines[k] # <<>> THEN
